@@ -120,6 +120,10 @@ def run(cap):
     wpm = 0.0
     npm = 0
     wh = None
+    nhidden = 0
+    p0 = None
+    if all(np.isfinite(float(getattr(eq, k, np.nan))) for k in ("Rmin", "Rmax", "Zmin", "Zmax")):
+        p0 = (0.5 * (float(eq.Rmin) + float(eq.Rmax)), 0.5 * (float(eq.Zmin) + float(eq.Zmax)))
     counts = {"0": 0, "1": 0, "frac": 0}
     for rid, region in mesh.regions.items():
         Ry, Zy = region.Rxy.ylow, region.Zxy.ylow
@@ -128,6 +132,10 @@ def run(cap):
         for i in range(region.nx):
             for j in range(region.ny + 1):
                 sides[(i, j)] = side(Ry[i, j], Zy[i, j])
+                # faces inside the wall whose line of sight to the centre of the psi box crosses the
+                # wall (an even number of times): only a wall that is not star-shaped has them
+                if p0 is not None and sides[(i, j)] == "inside" and any(c[2] == "point" for c in xg.first_crossing_on_segment(p0, (Ry[i, j], Zy[i, j]), cw)):
+                    nhidden += 1
         for i in range(region.nx):
             for j in range(region.ny):
                 p1 = (Ry[i, j], Zy[i, j])
@@ -171,4 +179,6 @@ def run(cap):
     for rid, region in mesh.regions.items():
         e = max(e, amax(np.abs(nc["penalty_mask"][mesh.region_indices[rid]] - region.penalty_mask)))
     out.append(rec("penalty_mask file = regions", cls, nc["penalty_mask"].size, e, 0.0))
+    if nhidden:
+        out.append(rec("informational: y-faces inside the wall hidden from the centre of the psi box (wall not star-shaped)", cls + "|hidden-faces", nhidden, 0, 0))
     return out
